@@ -15,7 +15,8 @@ ASSUMPTIONS = [
     "sort correspondence is on the defined types and non-specified directives (built-in types are not mapped by "
     "map_schema_config; filtering commutes with a stable sort); object literals inside default values are compared "
     "with sorted field names (a default held as a Python value is printed in the field order of its input type)",
-    "diff correspondence compares the multiset of change kinds (never the description strings) on the whole type map",
+    "diff correspondence compares the multiset of change kinds (never the description strings) on the whole type map; "
+    "the places named by the changes are covered by the theorem C19_diff_sound (witness per kind) on the model",
     "extension documents come from the generator domain of the property (add fields/interfaces/members/values/"
     "input fields/directives/operation types/new types); a new type named Query/Mutation/Subscription is outside "
     "that domain (build_schema adopts it as a root by convention, extend_schema does not)",
